@@ -290,14 +290,20 @@ class World:
                 mode = "zip_csv" if mode == "plain" else "plain"
         else:
             self.nname += 1
-            lname = f"f{self.nname}"
             mode = cs.choice("mode", MODES)
+            style = cs.choice("namestyle", ["f{}", "f{}", "d.{}", "s {}",
+                                            "U_{}-x"])
+            if mode == "zip_noext" and "." in style:
+                style = "f{}"      # 'd.1' without extension reads as suffix .1
+            lname = style.format(self.nname)
             if mode == "member" and not any(a["mode"] == "w"
                                             for a in self.archives.values()):
                 if len(self.archives) < 3:
                     self.op_open_archive()
                 else:
                     mode = cs.choice("mode2", MODES[:4])
+                    if mode == "zip_noext":
+                        lname = lname.replace(".", "_")
             rec0 = None
         df, fm = gen_frame(cs, "fr")
         comment = gen_comment(cs, "cm")
@@ -424,6 +430,12 @@ class World:
                     elif mode == "zip_noext":
                         variants += [Path(str(p) + ".zip"),
                                      Path(str(p) + ".csv")]
+                    if "." in p.stem:
+                        # the reader resolves names through their stem: an
+                        # extension-less spelling of 'd.1.csv' is not a name it
+                        # accepts
+                        variants = [v for v in variants if v.suffix != ""
+                                    and "." in v.stem]
                     v = variants[0] if cs.flip("canon", 60) or \
                         len(variants) == 1 else \
                         variants[cs.draw("variant", len(variants))]
@@ -475,6 +487,79 @@ class World:
             return
         names = sorted(self.store)
         self.read_one(csvmod, names[self.cs.draw("which", len(names))], "read")
+
+    def op_rewrite_from_read(self, csvmod):
+        """A frame returned by read_csv is filtered and written under a new
+        name with new comments (the ordinary read-modify-write of an analyst);
+        the new file must describe the new frame only."""
+        cs = self.cs
+        cands = [n for n in sorted(self.store)
+                 if self.store[n].get("defined", True)
+                 and self.store[n]["mode"] in ("plain", "zip_csv")
+                 and not self.store[n].get("switched_from")]
+        if not cands:
+            return
+        src = cands[cs.draw("src", len(cands))]
+        rec0 = self.store[src]
+        self.set_seams(csvmod)
+        with warnings.catch_warnings():
+            warnings.simplefilter("ignore")
+            try:
+                df, _ = csvmod.read_csv(self.path_arg(rec0["path"], "rs"))
+            except Exception as e:
+                raise Violation("read_failed", f"read_csv of {src} raised "
+                                f"{e!r}", "rewrite_from_read")
+        fm0 = rec0["frame"]
+        nrow = 1 + cs.draw("nrow", fm0["nrow"])
+        ncol = 1 + cs.draw("ncol", len(fm0["cols"]))
+        how = cs.choice("how", ["iloc", "copy_iloc", "loc_cols"])
+        if how == "iloc":
+            df2 = df.iloc[:nrow, :ncol]
+        elif how == "copy_iloc":
+            df2 = df.copy().iloc[:nrow, :ncol]
+        else:
+            df2 = df.loc[df.index[:nrow], list(df.columns[:ncol])]
+        cols = fm0["cols"][:ncol]
+        # cells as they were read (text/int exact, floats at the precision of
+        # the first file): the model of the second file is the frame handed in
+        cells = {}
+        kinds = fm0["kinds"][:ncol]
+        for c, k in zip(cols, kinds):
+            vals = df2[c].tolist()
+            cells[c] = [float(v) for v in vals] if k == "float" else \
+                ([int(v) for v in vals] if k == "int" else list(vals))
+        if any(k == "float" and any(v != v for v in cells[c])
+               for c, k in zip(cols, kinds)) and \
+                not any(k in ("int", "text") for k in kinds):
+            return        # a row of NaN only would be a blank line
+        comment = gen_comment(cs, "cm2")
+        fmt = cs.choice("fmt", FORMATS)
+        self.nname += 1
+        lname = f"r{self.nname}"
+        mode = cs.choice("mode", ["plain", "zip_csv"])
+        d = self.dirs[cs.draw("dir", len(self.dirs))]
+        fpath = d / (lname + ".csv")
+        self.log.ev("rewrite_from_read", src, lname, mode, how, nrow, ncol,
+                    comment, fmt)
+        SimDateTime._now = self.clock
+        try:
+            csvmod.write_csv(df2, self.path_arg(fpath, "fn"), comment,
+                             self.path_arg(self.script, "src"),
+                             compress=(mode != "plain"), float_format=fmt)
+        except Exception as e:
+            if (self.clock.year < 1980 or self.clock.year > 2107) and \
+                    mode != "plain":
+                return
+            raise Violation("write_failed", f"write_csv of a frame read from "
+                            f"{src} raised {e!r}", "rewrite_from_read")
+        self.store[lname] = {"mode": mode, "comment": comment, "fmt": fmt,
+                             "defined": True, "dir": str(d),
+                             "path": str(fpath),
+                             "frame": {"cols": cols, "kinds": kinds,
+                                       "cells": cells, "nrow": nrow}}
+        self.wrote = True
+        self.ctx.hit("probe.frame_from_read_csv_written_again")
+        self.read_one(csvmod, lname, "rewrite_from_read")
 
     def op_open_archive(self):
         n = len(self.archives) + 1
@@ -555,7 +640,8 @@ class World:
                 pass
 
 
-OPS = [("write", 10), ("overwrite", 4), ("read", 10), ("open_archive", 3),
+OPS = [("write", 10), ("overwrite", 4), ("read", 10), ("rewrite_from_read", 4),
+       ("open_archive", 3),
        ("reopen_archive", 3), ("chdir", 3), ("tick", 4), ("restart", 2)]
 
 
@@ -586,6 +672,8 @@ def run(cs, log, ctx):
                     w.op_write(csvmod, True)
                 elif kind == "read":
                     w.op_read(csvmod)
+                elif kind == "rewrite_from_read":
+                    w.op_rewrite_from_read(csvmod)
                 elif kind == "open_archive":
                     w.op_open_archive()
                 elif kind == "reopen_archive":
